@@ -25,13 +25,14 @@ def parseFam (t : List String) : Option (Fam × List String) := do
     let rm ← nat? rm; let ub ← nat? ub; let rk ← nat? rk; let dm ← nat? dm; let sl ← int? sl; let iv ← int? iv
     let T : TableDP := { n := n, B := b, D := d, embedDepth := e == "1", relaxMode := rm, rubMode := ub, rankMode := rk, domMode := dm, slack := sl, initVal := iv, tab := pairs ents, imp := imps.map (· == "1") }
     pure (.table T, rest.drop (2 * ne + n * b))
-  | "K" :: n :: cap :: rub :: dom :: rest =>
+  | kl :: n :: cap :: rub :: dom :: rest =>
+    if kl != "K" && kl != "L" then none else
     let n ← nat? n
     let ps ← ints? (rest.take n)
     let ws ← ints? ((rest.drop n).take n)
     if ps.length ≠ n ∨ ws.length ≠ n then none else
     let cap ← nat? cap; let rub ← nat? rub; let dom ← nat? dom
-    pure (.knap { n := n, cap := cap, profit := ps, weight := ws.map Int.toNat, rubMode := rub, domMode := dom }, rest.drop (2 * n))
+    pure (.knap { n := n, cap := cap, profit := ps, weight := ws.map Int.toNat, rubMode := rub, domMode := dom, free := kl == "L" }, rest.drop (2 * n))
   | _ => none
 
 structure Req where
@@ -230,7 +231,7 @@ def phiProtocol (fam : Fam) (rootDepth : Nat) (log : List (List String)) : Bool 
 def allImpacted (fam : Fam) : Bool :=
   match fam with
   | .table t => t.imp.all id
-  | .knap _ => true
+  | .knap k => !k.free
 
 def mddEngine (c i : List String) : Option Res := do
   match splitAt "|" c with
